@@ -47,6 +47,7 @@ var c14cliScenarios = []c14cliScenario{
 	{Name: "xml records, two workers", Args: []string{"-c", "2", "-m", "-x", "//a", "g1.xml", "g2.xml", "bad.xml"}},
 	{Name: "more workers than files", Args: []string{"-c", "4", "-n", "-a", "-x", "//a | //b", "g2.xml", "g1.xml"}},
 	{Name: "directory walk", Args: []string{"-c", "2", "-r", "-x", "count(//a)", "sub", "g2.xml"}},
+	{Name: "blocks larger than an I/O buffer", Args: []string{"-c", "2", "-a", "-x", "//a", "big1.xml", "big2.xml", "g2.xml"}},
 }
 
 type vrtReport struct {
@@ -97,6 +98,15 @@ func c14cliPrepare(base string, sc c14cliScenario, i int) string {
 	os.MkdirAll(filepath.Join(dir, "sub", "deep"), 0o755)
 	for n, content := range c14cliFiles {
 		os.WriteFile(filepath.Join(dir, n), []byte(content), 0o644)
+	}
+	for _, n := range []string{"big1.xml", "big2.xml"} {
+		var sb strings.Builder
+		sb.WriteString("<r>")
+		for k := 0; k < 700; k++ {
+			fmt.Fprintf(&sb, "<a>%s item %04d</a>", n, k)
+		}
+		sb.WriteString("</r>")
+		os.WriteFile(filepath.Join(dir, n), []byte(sb.String()), 0o644)
 	}
 	os.WriteFile(filepath.Join(dir, "sub", "g1.xml"), []byte(c14cliFiles["g1.xml"]), 0o644)
 	os.WriteFile(filepath.Join(dir, "sub", "deep", "d.json"), []byte(c14cliFiles["d.json"]), 0o644)
